@@ -47,7 +47,7 @@ func init() {
 		Assumptions: []string{"Get only for i < words(s); ToStr only on in-range word values; from >= 0; end = -1 or >= 0"},
 		Flavours:    releaseThenGo126,
 		Required: []string{"w=1", "w=2", "w=4", "w=8", "tostr/partial-last-byte", "tostr/empty", "firstdiff/end=-1", "firstdiff/from>=lim", "firstdiff/end-beyond-shorter", "firstdiff/found", "firstdiff/none",
-			"firstdiff/prefix-pair", "strs/empty-list", "byte>=0x80"},
+			"firstdiff/prefix-pair", "strs/empty-list", "byte>=0x80", "len>=300"},
 		Families: func(c *mon.Config) []mon.Family {
 			return []mon.Family{
 				{Name: "one-two-byte", N: 4 * 257, Run: c08Enum},
@@ -129,6 +129,10 @@ func c08Enum(w *mon.W, idx int) {
 func c08Random(w *mon.W, idx int) {
 	r := w.Rng
 	s := string(gen.ZooBytes(r, r.Intn(41)))
+	if idx%50 == 49 {
+		s = string(gen.ZooBytes(r, 300+r.Intn(900))) // long strings: byte/word index arithmetic far from 0
+		w.Bucket("len>=300")
+	}
 	for _, n := range c08Widths {
 		if !c08CheckStr(w, n, s) {
 			return
